@@ -1128,13 +1128,20 @@ impl<'ast, 'res> Resolver<'ast, 'res> {
                 .join(ExprClass::PureMayTrap),
             Expr::Binary { op, lhs, rhs, .. } => {
                 let class = self.classify_expr(lhs).join(self.classify_expr(rhs));
-                if matches!(op, BinaryOp::Divide | BinaryOp::Mod) {
+                // Operand types that are only known at run time can still mismatch there.
+                if matches!(op, BinaryOp::Divide | BinaryOp::Mod)
+                    || self.has_runtime_type(lhs)
+                    || self.has_runtime_type(rhs)
+                {
                     class.join(ExprClass::PureMayTrap)
                 } else {
                     class
                 }
             }
-            Expr::Unary { expr, .. } => self.classify_expr(expr),
+            Expr::Unary { expr, .. } => {
+                let class = self.classify_expr(expr);
+                if self.has_runtime_type(expr) { class.join(ExprClass::PureMayTrap) } else { class }
+            }
             Expr::Member { object, .. } => self.classify_expr(object),
             Expr::Call { callee, args, .. } => {
                 let mut class = args
@@ -1152,6 +1159,13 @@ impl<'ast, 'res> Resolver<'ast, 'res> {
                     }
                     Expr::Member { object, field, .. } => {
                         class = class.join(self.classify_expr(object));
+                        // The method may not exist for the receiver's run-time type, and
+                        // typed arguments are only checked when they are evaluated.
+                        if self.has_runtime_type(object)
+                            || args.args.iter().any(|arg| self.has_runtime_type(arg))
+                        {
+                            class = class.join(ExprClass::PureMayTrap);
+                        }
                         if let Some(builtin) = MemberBuiltin::from_name(field) {
                             class = class.join(effects::member_builtin_class(builtin));
                         } else {
@@ -1164,6 +1178,11 @@ impl<'ast, 'res> Resolver<'ast, 'res> {
                 class
             }
         }
+    }
+
+    /// True when the static type says nothing about the value the expression has at run time.
+    fn has_runtime_type(&self, expr: ExprRef<'ast>) -> bool {
+        matches!(self.infer_expr_type(expr), Some(ValueType::Dynamic) | None)
     }
 
     #[inline]
